@@ -629,3 +629,28 @@ pub fn first_param_may_not_self(typ: &LuaType) -> bool {
     }
     false
 }
+
+/// Verification hook (feature `verif-hooks`, off by default): entry count of every container
+/// of this index, so that tests can observe growth of indexed state.
+#[cfg(feature = "verif-hooks")]
+impl LuaTypeIndex {
+    pub fn verif_sizes(&self) -> Vec<(&'static str, usize)> {
+        vec![
+            ("type.file_namespace", self.file_namespace.len()),
+            ("type.file_using_namespace", self.file_using_namespace.len()),
+            ("type.file_types", self.file_types.len()),
+            ("type.file_types.entries", self.file_types.values().map(|m| m.len()).sum::<usize>()),
+            ("type.full_name_type_map", self.full_name_type_map.len()),
+            ("type.generic_params", self.generic_params.len()),
+            ("type.supers", self.supers.len()),
+            ("type.supers.entries", self.supers.values().map(|m| m.len()).sum::<usize>()),
+            ("type.types", self.types.len()),
+            ("type.in_filed_type_owner", self.in_filed_type_owner.len()),
+            ("type.in_filed_type_owner.entries", self.in_filed_type_owner.values().map(|m| m.len()).sum::<usize>()),
+            ("type.global_name_type_map", self.global_name_type_map.len()),
+            ("type.internal_name_type_map.entries", self.internal_name_type_map.values().map(|m| m.len()).sum::<usize>()),
+            ("type.local_name_type_map", self.local_name_type_map.len()),
+            ("type.local_name_type_map.entries", self.local_name_type_map.values().map(|m| m.len()).sum::<usize>()),
+        ]
+    }
+}
